@@ -38,6 +38,10 @@ CLAIMED = {
          'Symbolic execution of the real discov container (OnAdd/OnDelete/addKv/doRemoveKey/removeKv/getValues/notifyChange), cluster.handleWatchEvents/load/handleChanges/calculateChanges, the resolver subset() and the Kubernetes EventHandler: histories of 4-5 watch events and of puts followed by a full reload with keys and values as atoms (equality patterns chosen by the solver), exclusive and non-exclusive subscribers, map iteration order as a decision, against a ghost registry; listeners notified; kube handler publishes exactly the current address set.',
          'go/ssa translation, gosym, z3; atoms (uninterpreted strings with ==, len as an uninterpreted function) for keys/values/IPs; values assumed non-empty; etcd client replaced by a harness fake returning the snapshot; request-timeout context stubbed; exclusive reload snapshots with two new keys for one value excluded (delivery order unspecified); rand.Shuffle = arbitrary swaps.',
          'SSA symbolic execution + SMT (z3), bounded histories over atom strings'),
+ 'C08': ('DESIGN.md §4 C08',
+         'Claimed for the pure kernels only (the reflection-driven traversal of the unmarshaller is outside): fieldOptions.toOptionsWithContext for every option combination and dependency presence (resolved Optional equals the specification table; Range/Options/Default/FromString survive resolution), validateNumberRange/validateValueRange for every float64 (exact SMT FloatingPoint: NaN, infinities, signed zeros, subnormals) and every int64/uint64 against all open/closed combinations, validateValueInOptions over atom strings, parseNumberRange over all bracket bytes.',
+         'go/ssa translation, gosym, z3 (FloatingPoint theory for comparisons); which validator the unmarshaller calls for which field, required/default handling and all format front-ends are NOT covered (reflection is not modelled); range bounds assumed non-NaN with left <= right as parseNumberRange guarantees.',
+         'SSA symbolic execution + SMT (z3, exact FloatingPoint for comparisons)'),
 }
 
 NA = {
